@@ -66,6 +66,7 @@ type recorder struct {
 	wdLive   map[int]*grantInfo     // grants whose watchdog goroutine is (believed) alive
 	wdGoid   map[string]int64       // uuid -> goroutine of its watchdog
 	wdExited map[string]bool
+	remCause map[int64]string // goroutine inside queue.remove -> cause attributed at its begin event
 }
 
 // keyOf maps the queue object of an event to its lock key (cached: a pruned queue is no longer in the map).
@@ -103,6 +104,7 @@ func (r *recorder) reset(l lock.Lock) {
 	r.wdLive = map[int]*grantInfo{}
 	r.wdGoid = map[string]int64{}
 	r.wdExited = map[string]bool{}
+	r.remCause = map[int64]string{}
 	if r.byGoid == nil {
 		r.byGoid = map[int64]*proc{}
 	}
@@ -170,7 +172,6 @@ func (r *recorder) hook(ev string, kv ...any) {
 		ids := r.intern(strs(m["ids"]))
 		r.w.Emit(map[string]any{"ev": "enq", "p": pname, "k": k, "id": g.n, "found": b2i(head), "ids": ids, "cause": ""})
 		r.lastIDs[k] = ids
-		r.flush()
 		if r.onEvent != nil {
 			r.onEvent("enq", pname, g, head)
 		}
@@ -180,11 +181,9 @@ func (r *recorder) hook(ev string, kv ...any) {
 			return
 		}
 		ttl, _ := m["ttl"].(int64)
-		// the remove that made this caller the head wakes it before it logs itself (its lock.rem event is emitted when
-		// remove returns, still under q.mu): keep the grant line until that line is out
-		r.pending = append(r.pending, map[string]any{"ev": "grant", "p": g.owner, "k": g.key, "id": g.n, "found": 0, "ids": []int{}, "cause": "", "ttl_ms": ttl / 1e6})
+		// (the remove that made this caller the head has logged its begin line before it woke anybody)
+		r.w.Emit(map[string]any{"ev": "grant", "p": g.owner, "k": g.key, "id": g.n, "found": 0, "ids": []int{}, "cause": "", "ttl_ms": ttl / 1e6})
 		r.wdLive[g.n] = g
-		r.flush()
 		if r.onEvent != nil {
 			r.onEvent("grant", g.owner, g, true)
 		}
@@ -196,15 +195,14 @@ func (r *recorder) hook(ev string, kv ...any) {
 			return
 		}
 		r.wdExited[u] = true
-		// (same for the watchdog woken by close(c.done) inside a remove that has not logged itself yet)
-		r.pending = append(r.pending, map[string]any{"ev": "wdexit", "p": "", "k": g.key, "id": g.n, "found": 0, "ids": []int{}, "cause": ""})
-		r.flush()
-	case "lock.rem":
+		r.w.Emit(map[string]any{"ev": "wdexit", "p": "", "k": g.key, "id": g.n, "found": 0, "ids": []int{}, "cause": ""})
+		delete(r.wdLive, g.n)
+	case "lock.rem.begin":
+		// a remove call has taken q.mu and has not woken anybody yet: this line fixes its place in the order
 		k, known := r.keyOf(m["q"])
 		if !known {
 			return // a queue of an earlier run (late watchdog)
 		}
-		found, _ := m["found"].(bool)
 		cause := "unlock"
 		pname := ""
 		if p != nil {
@@ -229,6 +227,29 @@ func (r *recorder) hook(ev string, kv ...any) {
 		if g != nil {
 			n = g.n
 		}
+		r.remCause[gid] = cause
+		r.w.Emit(map[string]any{"ev": "rem", "cause": cause, "p": pname, "k": k, "id": n, "found": 0, "ids": []int{}})
+	case "lock.rem":
+		// the same call returns (still under q.mu): what it did
+		k, known := r.keyOf(m["q"])
+		if !known {
+			return
+		}
+		found, _ := m["found"].(bool)
+		cause := r.remCause[gid]
+		delete(r.remCause, gid)
+		pname := ""
+		if p != nil {
+			pname = p.name
+		}
+		g := r.ids[u]
+		if g != nil && cause != "unlock" {
+			pname = g.owner
+		}
+		n := 0
+		if g != nil {
+			n = g.n
+		}
 		ids := r.intern(strs(m["ids"]))
 		if !found {
 			// nothing left the queue. The queue object may be one that is no longer the key's queue (a watchdog that fires
@@ -236,9 +257,8 @@ func (r *recorder) hook(ev string, kv ...any) {
 			// content reported for it says nothing about the key: log the key's queue as it stands.
 			ids = append([]int{}, r.lastIDs[k]...)
 		}
-		r.w.Emit(map[string]any{"ev": "rem", "cause": cause, "p": pname, "k": k, "id": n, "found": b2i(found), "ids": ids})
+		r.w.Emit(map[string]any{"ev": "remend", "cause": cause, "p": pname, "k": k, "id": n, "found": b2i(found), "ids": ids})
 		r.lastIDs[k] = ids
-		r.flush()
 		if found && g != nil {
 			g.once.Do(func() { close(g.gone) })
 		}
